@@ -268,11 +268,57 @@ def interleave_case(case):
     return r
 
 
+def noop_case(case):
+    """'a call made when already at the target changes nothing' with the REQUESTED target (the recorded end may differ from it by rounding, e.g.
+    ten steps of 0.1), and the continuation after the redundant calls equals, bit for bit, that of a twin that never made them."""
+    de, I = lc._imports()
+    r = Res()
+    name = case["method"]
+    dtype = lc.DT[case["dtype"]]
+    t0, t1, t2 = case["t0"], case["t1"], case["t2"]
+
+    def make():
+        a = de.OdeSystem(f_osc, y0=np.array([0.0, 1.0], dtype=dtype), t=(dtype(t0), dtype(t1)), dt=dtype(case["dt0"]), rtol=dtype(1e-6), atol=dtype(1e-6),
+                         dense_output=bool(case["dense"]), constants=dict(k=1.0))
+        a.method = method_of(name)
+        return a
+    r.n = 1
+    try:
+        a = make(); twin = make()
+        a.integrate(callback=driver.Budget(20000)); twin.integrate(callback=driver.Budget(20000))
+        k0 = driver.canon(a)
+        exact_end = bool(a.t[-1] == dtype(t1))
+        for how in case["redundant"]:
+            if how == "plain":
+                a.integrate()
+            elif how == "target":
+                a.integrate(dtype(t1))
+            elif how == "recorded":
+                a.integrate(a.t[-1])
+            k1 = driver.canon(a)
+            if k1 != k0:
+                r.v("C13/noop-at-requested-target/%s" % name, "a call made when already at the target changes nothing", dict(case, call=how),
+                    observed=dict(dt=float(a.dt), dt_twin=float(twin.dt), rows=[len(a), len(twin)], t_end=repr(a.t[-1]), exact_end=exact_end), expected="state (incl. dt) unchanged")
+                return r
+        a.integrate(dtype(t2), callback=driver.Budget(20000)); twin.integrate(dtype(t2), callback=driver.Budget(20000))
+        if driver.canon(a) != driver.canon(twin):
+            r.v("C13/continuation-after-noop/%s" % name, "identical results whether or not redundant calls were made at the target", case,
+                observed=dict(rows=[len(a), len(twin)], dt=[float(a.dt), float(twin.dt)]), expected="bit-identical")
+    except de.exception_types.FailedIntegration as e:
+        if driver.budget_hit(e):
+            r.v("C13/runaway/%s" % name, "operations terminate", case, observed="step budget exhausted", expected="terminates")
+        else:
+            r.add("raised")
+        return r
+    r.out(("noop", name, case["dtype"], exact_end, tuple(case["redundant"])))
+    return r
+
+
 def run(ctx):
     depth = 3 if ctx.quick else 4
     ctx.rule = ("E1 breadth-first search to depth %d over {integrate(), integrate(1.0), integrate(0.5), dt=, rtol=, atol=, method= (2 choices), tf=, set_kick_vars, "
                 "integrate(terminal event), faulting integrate, reset} from 8 base methods (incl. a Richardson wrapper) x dense on/off; in EVERY reached state: rebuild twice (bit-identical), caller data untouched, "
-                "no-op call at the target, reset -> pristine -> integrate bit-identical to a fresh system with the current settings; plus split-invariance cells; "
+                "no-op call at the target (also in separate cells with non-dyadic steps, where the recorded end differs from the requested target by rounding), reset -> pristine -> integrate bit-identical to a fresh system with the current settings; plus split-invariance cells; "
                 "distinct = distinct (method, op-name history) classes" % depth)
     ctx.assumptions += ["'same settings' of the fresh system = current method, rtol, atol, tf, kick mask, the constructor's dt and dense flag",
                         "setters are used at most once per history; histories are bounded by the depth"]
@@ -297,6 +343,17 @@ def run(ctx):
         grid.pmap(split_case, cases, ctx, section="split", horizon=600)
         icases = [dict(method=m, other=o, dense=d) for m in BASES + ["SymplecticEulerSolver", "GaussLegendre4", "ImplicitMidpoint"] for o in (m, "RK4Solver", "RadauIIA5", "ABAs5o6HSolver") for d in (False, True)]
         grid.pmap(interleave_case, icases, ctx, section="interleave", horizon=600)
+    if not ctx.only or "noop" in ctx.only:
+        from mc.core import grid
+        ncases = []
+        for m in lc.FIXED_EXPLICIT[:3] + ["RK4Solver"] + lc.SPLITTING[:2] + ["RK45CKSolver", "DOPRI45", "ImplicitMidpoint", "RadauIIA5", "RICH:RK4Solver:3"]:
+            for (t0, t1, t2) in ((0.0, 1.0, 2.0), (0.0, -1.0, -2.0), (-0.3, 0.7, 1.3), (0.0, 1.0, 0.5)):
+                for dt0 in (0.1, 0.3, 0.25):
+                    for red in (["plain"], ["target"], ["plain", "target", "recorded"]):
+                        for dn in (("float64",) if ctx.quick else ("float64", "longdouble", "float32")):
+                            for dense in ((False,) if ctx.quick else (False, True)):
+                                ncases.append(dict(noop=True, method=m, dtype=dn, dense=dense, t0=t0, t1=t1, t2=t2, dt0=dt0, redundant=red))
+        grid.pmap(noop_case, ncases, ctx, section="noop", horizon=600)
 
 
 def replay(case):
@@ -304,6 +361,8 @@ def replay(case):
         return split_case(case)
     if "other" in case:
         return interleave_case(case)
+    if case.get("noop"):
+        return noop_case({k: v for k, v in case.items() if k != "call"})
     cfg = {k: v for k, v in case.items() if k not in ("hist", "_depth")}
     hist = tuple(tuple(o) if not isinstance(o[-1], list) else (o[0], tuple(o[1])) for o in case["hist"])
     return step(cfg, hist)
